@@ -108,7 +108,7 @@ func (p *Path) NonNil(t *Term) bool {
 	if p.Holds(atomEQ(t, tNil), false) {
 		return true
 	}
-	return builtError(t)
+	return builtError(t) || nonNil(t)
 }
 func (p *Path) IsNilAt(e *Event, t *Term) bool {
 	t = unwrapStack(t)
@@ -119,7 +119,7 @@ func (p *Path) NonNilAt(e *Event, t *Term) bool {
 	if t.Op == "nil" {
 		return false
 	}
-	return p.HoldsAt(e, atomEQ(t, tNil), false) || builtError(t)
+	return p.HoldsAt(e, atomEQ(t, tNil), false) || builtError(t) || nonNil(t)
 }
 
 // builtError: an error value constructed from one of the module's error
